@@ -281,7 +281,10 @@ func rulesC18(c *Ctx) {
 		rs := c.Field(pM, "Server", "resourceSubscriptions")
 		okU := false
 		for _, w := range Writes(ru.Body, false) {
-			if m, k, ok := indexOf(w.RHS); ok && w.RHS != nil && ru.IsField(m, rs) && func() bool { nm, on := ru.SelectorOn(k, ru.ParamOfNamed(pM, "ResourceUpdatedNotificationParams")); return on && nm == "URI" }() {
+			if m, k, ok := indexOf(w.RHS); ok && w.RHS != nil && ru.IsField(m, rs) && func() bool {
+				nm, on := ru.SelectorOn(k, ru.ParamOfNamed(pM, "ResourceUpdatedNotificationParams"))
+				return on && nm == "URI"
+			}() {
 				subs := ru.ObjOf(w.LHS)
 				inspectNoLit(ru.Body, func(n ast.Node) {
 					if r, ok := n.(*ast.RangeStmt); ok && ru.ObjOf(r.X) == subs {
